@@ -71,14 +71,14 @@ pub fn c10(o: &Oracle, _thorough: bool, _seed: u64, rep: &Report) {
                 json!({"rank": title(&c.rank_name), "suit": title(&c.suit_name), "prime": c.prime, "rank_bit": c.rank_bit,
                        "rank_flag": hilo(c.rank_bit << 16), "suit_bit": c.suit_bit, "suit_flag": c.suit_bit << 12,
                        "rank_char": c.rank_char as u32, "suit_char": c.suit_char as u32, "suit_letter": c.suit_letter as u32,
-                       "blank": false, "chen2": c.chen2, "chen_exact": true}),
+                       "blank": false}),
             )
         })
         .collect();
     subjects.push((
         0,
         json!({"rank": "BLANK", "suit": "BLANK", "prime": 0, "rank_bit": 0, "rank_flag": hilo(0), "suit_bit": 0, "suit_flag": 0,
-               "rank_char": '_' as u32, "suit_char": '_' as u32, "suit_letter": '_' as u32, "blank": true, "chen2": 0, "chen_exact": true}),
+               "rank_char": '_' as u32, "suit_char": '_' as u32, "suit_letter": '_' as u32, "blank": true}),
     ));
     for (w, exp) in subjects {
         let ev = json!({"op":"acc","w":hilo(w)});
@@ -89,10 +89,12 @@ pub fn c10(o: &Oracle, _thorough: bool, _seed: u64, rep: &Report) {
                 bad = true;
             }
         }
-        if bad {
+        if bad && w == 0 {
+            advise(rep, ev, exp, "accessors on the blank card drift (the statement speaks of the 52 cards)");
+        } else if bad {
             viol(rep, ev, exp, "accessor does not read the documented field back");
         }
-        rep.eval(13);
+        rep.eval(11);
     }
     rep.sample(observe(&json!({"op":"acc","w":hilo(o.cards[0].w)})));
     // the filter over all 2^32 words
@@ -112,7 +114,7 @@ fn title(s: &str) -> String {
 }
 
 /// Word kinds used to build near-miss hands.
-fn kind_word(o: &Oracle, kind: usize, rng: &mut Rng) -> u32 {
+pub fn kind_word(o: &Oracle, kind: usize, rng: &mut Rng) -> u32 {
     let c = o.cards[rng.below(52) as usize].w;
     match kind {
         0 => c,
@@ -135,7 +137,7 @@ fn kind_word(o: &Oracle, kind: usize, rng: &mut Rng) -> u32 {
         }
     }
 }
-const KINDS: usize = 10;
+pub const KINDS: usize = 10;
 
 fn check_validity(o: &Oracle, rep: &Report, w: &[u32]) {
     let n = w.len();
@@ -177,32 +179,34 @@ fn check_validity(o: &Oracle, rep: &Report, w: &[u32]) {
     }
     rep.eval(4);
     if n >= 5 {
-        let exp = if valid {
-            let mut idx: Vec<usize> = w.iter().map(|x| o.word_to_card[x]).collect();
-            idx.sort_unstable();
-            o.best_of(&idx)
-        } else {
-            0
-        };
+        // C04 relates validated ranking to validity and to unvalidated ranking (code against code): 0 exactly
+        // for a non-hand, otherwise the same (non-zero) value as unvalidated ranking.  What that value is
+        // belongs to C01 / C02, what the rank record says to C06.
         let got = guarded(|| {
             let a = rank_value_validated(&h);
-            let hv = hand_rank_validated(&h);
-            // the validated rank must be the conversion of the validated value: Invalid/Invalid for a
-            // non-hand, and it must pass its own consistency test
-            let b = if hv == ckc_rs::hand_rank::HandRank::from(hv.value) && hv.is_a_valid_hand_rank() { hv.value } else { u16::MAX };
+            let b = hand_rank_validated(&h).value;
             let c = if n == 5 { ckc_rs::evaluate::five_cards([w[0], w[1], w[2], w[3], w[4]]) } else { a };
-            let d = if valid { rank_value(&h) } else { exp };
+            let d = if valid { rank_value(&h) } else { 0 };
             (a, b, c, d)
         });
         match got {
             Ok((a, b, c, d)) => {
-                if a != exp || b != exp || c != exp || d != exp {
+                let ok = if valid { d != 0 && a == d && b == d && c == d } else { a == 0 && b == 0 && c == 0 };
+                if !ok {
+                    let e = if valid { d } else { 0 };
                     viol(rep, json!({"op":"valid","words":hilo_arr(w)}),
-                         json!({"v_validated": exp, "v_rank_validated": exp, "name_validated": o.name_of(exp), "class_validated": o.class_of(exp), "consistent_validated": true}),
-                         "validated ranking is not 0 / Invalid exactly for non-hands and the unvalidated rank otherwise");
+                         json!({"v_validated": e, "v_rank_validated": e}),
+                         "validated ranking is not 0 exactly for non-hands and the unvalidated value otherwise");
+                }
+                if valid {
+                    let mut idx: Vec<usize> = w.iter().map(|x| o.word_to_card[x]).collect();
+                    idx.sort_unstable();
+                    if d != o.best_of(&idx) {
+                        advise(rep, json!({"op":"valid","words":hilo_arr(w)}), json!({"v_value": o.best_of(&idx)}), "value of a valid hand differs from the best five-card value (C01 / C02, not C04)");
+                    }
                 }
             }
-            Err(_) => viol(rep, json!({"op":"valid","words":hilo_arr(w)}), json!({"v_validated": exp}), "validated ranking unwound"),
+            Err(_) => viol(rep, json!({"op":"valid","words":hilo_arr(w)}), json!({"v_validated": 0}), "validated ranking unwound"),
         }
         rep.eval(4);
     }
@@ -234,7 +238,8 @@ pub fn c04(o: &Oracle, thorough: bool, seed: u64, rep: &Report) {
         let t = Hand::from_words(&[w, partner]);
         let e_valid = e != 0 && w != partner;
         if guarded(|| CardNumber::filter(w)) != Ok(e) {
-            viol(rep, json!({"op":"filter","w":hilo(w)}), json!({"res": hilo(e)}), "card recogniser does not accept exactly the 52 card words");
+            // the recogniser itself is C10's statement; C04 speaks of the validity of hands
+            advise(rep, json!({"op":"filter","w":hilo(w)}), json!({"res": hilo(e)}), "card recogniser does not accept exactly the 52 card words (C10, not C04)");
         }
         if guarded(|| t.is_valid()) != Ok(e_valid) {
             viol(rep, json!({"op":"valid","words":hilo_arr(&[w, partner])}), json!({"valid": e_valid}), "is_valid differs from: every slot a card word and no two slots equal");
@@ -369,7 +374,8 @@ pub fn c04(o: &Oracle, thorough: bool, seed: u64, rep: &Report) {
 
 pub fn c11(o: &Oracle, thorough: bool, seed: u64, rep: &Report) {
     // integer order of the implementation's own card words (deck array) vs rank-then-suit
-    let deck = POKER_DECK.arr();
+    // the 52 card words are those of the documented layout (that the constants and the deck hold them is C10 / C18)
+    let deck: Vec<u32> = o.cards.iter().map(|c| c.w).collect();
     for a in &o.cards {
         for b in &o.cards {
             let wa = deck[a.i];
@@ -384,7 +390,7 @@ pub fn c11(o: &Oracle, thorough: bool, seed: u64, rep: &Report) {
             viol(rep, json!({"op":"deck_get","index":limbs(a.i as u64)}), json!({}), "blank is not below every card");
         }
     }
-    rep.space("52 x 52 card pairs and blank", true, 52 * 52 + 52);
+    rep.space("52 x 52 pairs of card words (as documented) and blank", true, 52 * 52 + 52);
     // sorting: every arrangement over a 7-symbol alphabet, sizes 2..7
     let alpha = [0u32, o.cards[0].w, o.cards[20].w, o.cards[51].w, o.cards[5].w | (1 << 30), u32::MAX, 1];
     let total = AtomicU64::new(0);
